@@ -17,7 +17,7 @@ MultipleShooting imposes (A) at all N+1 nodes for the same declarations.
 The expected rows below are computed with scipy B-splines from the raw coefficient decision variables.
 """
 import sys
-sys.path.insert(0, '/tmp/nx_pydeps')
+sys.path.insert(0, '/verif/pydeps')
 import numpy as np, casadi as ca
 from scipy.interpolate import BSpline
 from rockit import Ocp, SplineMethod
